@@ -16,7 +16,7 @@ RULE = ('one run = one client connection to a real executor configured with draw
         'non-trivial = the header is present (any variant) or the request is segmented; distinct = distinct digests')
 PROBES = ['absent', 'canonical', 'other_scheme', 'wrong_token', 'reencoded', 'whitespace', 'params', 'duplicate',
           'raw_credentials', 'connect_method', 'segmented', 'followup', 'user_plugins', 'rejected_407', 'served',
-          'either_rejected', 'either_served']
+          'either_rejected', 'either_served', 'coalesced_followups', 'upgrade_followup', 'auth_listed_explicitly']
 COMPONENTS = {
     'real': ['proxy/http/proxy/auth.py', 'proxy/http/proxy/server.py', 'proxy/http/handler.py', 'proxy/common/flag.py '
              '(plugin ordering)', 'proxy/http/parser/*', 'proxy/http/exception/proxy_auth_failed.py',
@@ -55,9 +55,13 @@ def run_one(tape: Any, cfg: Dict[str, Any], forbid: FrozenSet[str] = frozenset()
         good = base64.b64encode(user + b':' + pw)
         nplug = tape.weighted([2, 2, 1], 'nplug')
         plog: List[Any] = []
-        plugins = [make_proxy_plugin(i + 1, {}, plog) for i in range(nplug)]
+        plugins: List[Any] = [make_proxy_plugin(i + 1, {}, plog) for i in range(nplug)]
         if nplug:
             w.probe('user_plugins')
+            if g.feature('auth_listed_explicitly', 0.2):
+                # the operator also names the auth plugin among the plugins, after some of their own: it still comes first
+                plugins.insert(1 + tape.draw(nplug, 'auth-pos'), b'proxy.http.proxy.auth.AuthPlugin')
+                w.probe('auth_listed_explicitly')
         # ---- the header situation -----------------------------------------------------------------
         kind = ['absent', 'canonical', 'other_scheme', 'wrong_token', 'reencoded', 'whitespace', 'params',
                 'duplicate', 'raw_credentials'][tape.weighted([3, 4, 2, 4, 2, 2, 2, 2, 1], 'kind')]
@@ -154,11 +158,20 @@ def run_one(tape: Any, cfg: Dict[str, Any], forbid: FrozenSet[str] = frozenset()
                 extra = [] if fk == 0 else [(casing(tape, b'Proxy-Authorization'),
                                             [b'Basic ', b'basic '][tape.draw(2, 'fsc')] +
                                             (good if fk == 1 else base64.b64encode(b'other:creds')))]
+                ms = METHODS
+                if i == nfollow - 1 and extra and g.feature('upgrade_followup', 0.2):
+                    # a protocol-switch request (declined by the origin) is still a request: its credentials stay here
+                    extra = [(b'Connection', b'Upgrade'), (b'Upgrade', b'websocket')] + extra
+                    ms = [b'GET']
+                    w.probe('upgrade_followup')
                 r2, m2 = gen_request(tape, g, form='absolute', host=b'up.example', port=port,
-                                     max_body=cfg['max_body'], extra=extra, allow_http10=False, methods=METHODS)
+                                     max_body=cfg['max_body'], extra=extra, allow_http10=False, methods=ms)
                 reqs.append((r2, m2))
             if nfollow:
                 w.probe('followup')
+        # follow-ups written together with the first request (one segment): whether they are answered at all is C04's
+        # question (known finding there); here only that nothing of them reaches the origin with the credentials on
+        coalesced = nfollow > 0 and g.feature('coalesced_followups', 0.25)
         total = sum(len(r) for r, _ in reqs)
         floor = scen.unit_floor(total, 400)
         opts = scen.proxy_opts(tape, floor)
@@ -180,7 +193,10 @@ def run_one(tape: Any, cfg: Dict[str, Any], forbid: FrozenSet[str] = frozenset()
         script: List[Any] = [('connect',)]
         segmented = False
         nresp = 0
-        for i, (raw, meta) in enumerate(reqs):
+        if coalesced:
+            script.append(('send', b''.join(r for r, _ in reqs), 'burst'))
+            script.append(('wait_rx', lambda p: _count(bytes(p.rx)) >= 1))
+        for i, (raw, meta) in enumerate(reqs if not coalesced else []):
             cuts = gen_cuts(tape, len(raw), meta['marks'])
             if cuts:
                 segmented = True
@@ -196,6 +212,8 @@ def run_one(tape: Any, cfg: Dict[str, Any], forbid: FrozenSet[str] = frozenset()
         script += [('sleep', 0.5), ('close',)]
         if segmented:
             w.probe('segmented')
+        if coalesced:
+            w.probe('coalesced_followups')
         cl = Peer(w, 'client', script, read_mode='chunky')
         cl.connect_fn = h.connector()
         w.settle(1.5, 300.0)
@@ -245,7 +263,12 @@ def run_one(tape: Any, cfg: Dict[str, Any], forbid: FrozenSet[str] = frozenset()
                         w.fail('not_served', sig, 'tunnel did not relay: client %r origin %r' % (rx[-20:], orx[:40]))
                 else:
                     ok = [r for r in resp if r['status'] == 200 and r['complete']]
-                    if p['error'] or len(ok) != len(reqs) or len(resp) != len(reqs):
+                    if coalesced:
+                        # (whether and how many of them are answered: C04 / C06, known findings there)
+                        if p['error'] or len(ok) != len(resp) or len(resp) > len(reqs):
+                            w.fail('not_served', sig, 'valid credentials (%s), coalesced requests: client got %r (h11: %s)'
+                                   % (kind, rx[:120], p['error']))
+                    elif p['error'] or len(ok) != len(reqs) or len(resp) != len(reqs):
                         w.fail('not_served', sig, 'valid credentials (%s) but %d of %d requests answered 200: %r (h11: %s)'
                                % (kind, len(ok), len(reqs), rx[:120], p['error']))
                 if not w.failures:
@@ -253,6 +276,10 @@ def run_one(tape: Any, cfg: Dict[str, Any], forbid: FrozenSet[str] = frozenset()
                     if form == 'connect':
                         if good in orx or b'uthorization' in orx:
                             leak = orx[:100]
+                    elif coalesced:
+                        if b'proxy-authorization' in orx.lower() or good in orx:
+                            i = max(orx.lower().find(b'proxy-authorization'), 0)
+                            leak = (1, b'raw origin bytes', orx[max(0, i - 40):i + 60])
                     else:
                         pr = h11_parse_requests(orx)
                         if pr['error'] or len(pr['requests']) != len(reqs):
@@ -273,7 +300,7 @@ def run_one(tape: Any, cfg: Dict[str, Any], forbid: FrozenSet[str] = frozenset()
         res.nontrivial = bool(lines) or segmented
         res.features = g.features
         res.scenario = {'kind': kind, 'class': klass, 'lines': [(a.decode('latin-1'), b.decode('latin-1')) for a, b in lines],
-                        'configured': good.decode(), 'form': form, 'nplug': nplug, 'nfollow': nfollow,
+                        'configured': good.decode(), 'form': form, 'nplug': nplug, 'nfollow': nfollow, 'coalesced': coalesced,
                         'requests': [r.decode('latin-1')[:400] for r, _ in reqs]}
         return scen.end_run(w, h, res)
 
